@@ -24,11 +24,14 @@ theorem C13_update (ordered : Bool) (ttl : Option Int) (ops : List TrkOp)
       | none => { mmsi := m, attrs := attrs, lu := ts }
     (update s m attrs ts now).1.tracks =
       (s.tracks.filter (·.mmsi ≠ m) ++ [merged]).filter (fun t => !(staleAt s.ttl now t.lu)) := by
-  sorry
+  intro s merged
+  have hinv : TrkInv s := inv_run ordered ttl ops
+  rw [(update_accepted s m attrs ts now hacc).1]
+  exact (cleanup_exact _ (inv_insert_accepted s hinv m attrs ts now hacc) now).1
 
 /-- with TTL `None` nothing ever expires -/
 theorem C13_none (s : TrkState) (h : s.ttl = none) (now : Int) : cleanup s now = (s, []) := by
-  sorry
+  simp [cleanup, h]
 
 /-- DELETED fires exactly for the expired tracks, once each -/
 theorem C13_events (ordered : Bool) (ttl : Option Int) (ops : List TrkOp) (now : Int) :
